@@ -31,7 +31,7 @@ VALUES = ['L' * 3300, 'v', '', 'é-ünï-☃', '<b>&=?;,"\\', 0, 1, -7, 2.5, 1e1
           # strings no UTF-8 encoder accepts (half of a surrogate pair, as a JavaScript client that cuts an emoji sends it)
           '\ud83d', 'x\udc00y', {'n': ['\ud83d', 1]}, '\U0001f600', '\x00']
 KEYS = ['k', 'j', 'user', 'ünï', 'a b', 'k&k', 'k=k', '']
-TAMPERS = ['flip', 'flip', 'trunc', 'extend', 'swap', 'resign', 'random', 'nonascii', 'badb64', 'nosep',
+TAMPERS = ['amp_to_pipe', 'amp_to_pipe', 'pipe_tail', 'flip', 'flip', 'trunc', 'extend', 'swap', 'resign', 'random', 'nonascii', 'badb64', 'nosep',
            'quotes', 'junk_in_mac', 'strip_pad', 'empty', 'only_sep', 'dup_item', 'expiry_forge', 'unsigned_json']
 
 
@@ -109,6 +109,14 @@ def tamper(kind, raw, p, other_token, registry_tokens):
         if other_token:
             return mac + '?' + other_token.partition('?')[2], other_token
         return payload + '?' + mac, None
+    if kind == 'amp_to_pipe':
+        # the item separator replaced by the character the MAC puts in front of every item: one "item" whose bytes are
+        # MAC-equivalent to the genuine cookie
+        return mac + sep + payload.replace('&', '|'), None
+    if kind == 'pipe_tail':
+        # the genuine first item, the rest of the payload dropped into it behind a '|'
+        first, _, rest = payload.partition('&')
+        return mac + sep + first + '|' + rest.replace('&', '|'), None
     if kind == 'resign':
         forged = ck.JSONCookie(p.get('data', {'k': 'FORGED'}), b'attacker-key').serialize().decode()
         return forged, None
